@@ -340,6 +340,10 @@ func (so *stateObject) deepCopy(db *StateDB) *stateObject {
 	stateObject.suicided = so.suicided
 	stateObject.dirtyCode = so.dirtyCode
 	stateObject.deleted = so.deleted
+	// the delegation list is replaced, never edited in place (see UpdateDelegationTo), so it can be shared;
+	// a changed list exists only here until Commit writes its blob, the copy can not reload it by hash.
+	stateObject.delegations = so.delegations
+	stateObject.dirtyDlgs = so.dirtyDlgs
 	return stateObject
 }
 
